@@ -61,11 +61,24 @@ func (m *Mutex) Unlock() {
 	if vsched.Active() {
 		vsched.TracePoint("Mutex.Unlock")
 		vsched.Point()
+		m.checkHeld()
 		m.mu.Unlock()
 		vsched.NoteWrite()
 		return
 	}
+	if !vsched.FreeRunning {
+		m.checkHeld()
+	}
 	m.mu.Unlock()
+}
+
+// checkHeld turns the runtime's unrecoverable "unlock of unlocked mutex" into an ordinary panic
+// (exact under the cooperative scheduler and in sequential native phases).
+func (m *Mutex) checkHeld() {
+	if m.mu.TryLock() {
+		m.mu.Unlock()
+		panic("sync: unlock of unlocked mutex")
+	}
 }
 
 // RWMutex is provided for completeness (otter does not use it today).
